@@ -29,6 +29,7 @@ import PV.Gen.Flatten
 import PV.Spec.FirstOcc
 import PV.Spec.Base64
 import PV.Model.Cleaning
+import PV.Model.BufStream
 import PV.Model.CleaningThresholds
 /-
 One function per unit: `List String` (the operation's arguments) to one output line.
@@ -80,6 +81,15 @@ def b64 (op : String) (args : List String) : String :=
       | .ok o => s!"ok {hex o}"
       | .notB64 => "ERR:notb64"
       | .length => "ERR:length"
+    | none => "bad-op"
+  | "decseq", hs =>      -- every document on its own: the result may not depend on what was decoded before
+    match hs.mapM unhex with
+    | some docs =>
+      let rs := docs.map (fun bs => match PV.Base64.decode bs with
+        | .ok o => s!"ok {hex o}"
+        | .notB64 => "ERR:notb64"
+        | .length => "ERR:length")
+      if rs.isEmpty then "-" else " ; ".intercalate rs
     | none => "bad-op"
   | "spec.enc", [h] =>
     match unhex h with
@@ -600,6 +610,41 @@ def cleanU (op : String) (args : List String) : String :=
     | _, _, _, _, _, _, _, _, _, _ => "bad-op"
   | _, _ => "bad-op"
 
+
+/-! BufferedStream (C03): `bstream.run <tokens>`; tokens: w<n> = write() of n bytes (pattern v++ % 251), u<d> = operator<< of
+    the d-digit number 10^(d-1) (Ensure(kBytesU64)), c = operator<< of 'x' (Ensure(1)), f = flush().  The stream is then
+    destroyed.  Output: the sizes of the chunks handed to the Writer, the number of Writer::flush calls, bytes-ok. -/
+def bstreamOps : List String → Nat → Option (List PV.BufStream.Op)
+  | [], _ => some []
+  | t :: ts, v =>
+    if t == "c" then (bstreamOps ts v).map (.put 1 [120] :: ·)
+    else if t == "f" then (bstreamOps ts v).map (.flush :: ·)
+    else if t.startsWith "u" then
+      match (t.drop 1).toNat? with
+      | some d =>
+        let d := max 1 (min d 20)
+        (bstreamOps ts v).map (.put PV.Gen.kBytesU64 ((49 : UInt8) :: List.replicate (d - 1) 48) :: ·)
+      | none => none
+    else if t.startsWith "w" then
+      match (t.drop 1).toNat? with
+      | some n => (bstreamOps ts (v + n)).map (.write ((List.range n).map (fun k => UInt8.ofNat ((v + k) % 256 % 251))) :: ·)
+      | none => none
+    else none
+
+def bstreamU (op : String) (args : List String) : String :=
+  match op, args with
+  | "run", [toks] =>
+    let tokens := if toks == "-" then [] else (toks.splitOn ",").filter (· ≠ "")
+    match bstreamOps tokens 0 with
+    | some ops =>
+      let cap := max 8192 PV.Gen.kToStringMaxBytes
+      let s := PV.BufStream.finish cap ops
+      let sizes := ",".intercalate (s.chunks.map (fun c => toString c.length))
+      let ok := s.chunks.flatten == (ops.map PV.BufStream.Op.bytes).flatten
+      s!"ok {if sizes.isEmpty then "-" else sizes} {s.flushes} {if ok then "bytes-ok" else "BYTES-DIFFER"}"
+    | none => "bad-op"
+  | _, _ => "bad-op"
+
 def dispatch (line : String) : String :=
   match words line with
   | [] => "bad-op"
@@ -629,6 +674,7 @@ def dispatch (line : String) : String :=
     | ["fields", op] => fields op args
     | ["fields", "spec", op] => fields ("spec." ++ op) args
     | ["clean", op] => cleanU op args
+    | ["bstream", op] => bstreamU op args
     | ["table", op] => table op args
     | ["table", "spec", op] => table ("spec." ++ op) args
     | ["b64", "spec", op] => b64 ("spec." ++ op) args
